@@ -50,10 +50,10 @@ package check
 // ---- C02: the effective depth. eff(r, g) = g if r <= 0 or g < r, else r.
 //@ spec eff(r int, g int) int = (r <= 0 || g < r) ? g : r
 
-//@ callers-only[C02] (*Config).MaxReadDepth : (*Engine).CheckRelationTuple, (*Engine).buildTreeRecursive
+//@ callers-only[C02,C08] (*Config).MaxReadDepth : (*Engine).CheckRelationTuple, (*Engine).buildTreeRecursive
 //@ callers-only[C02] (*Config).MaxReadWidth : (*Engine).checkExpandSubject
 // the clamp is applied exactly once per request: the clamping entry point is not re-entered from inside the engine
-//@ callers-only[C02] (*Engine).CheckRelationTuple : (*Engine).CheckIsMember, (*Engine).BatchCheck
+//@ callers-only[C02,C08] (*Engine).CheckRelationTuple : (*Engine).CheckIsMember, (*Engine).BatchCheck
 
 //@ func (*Engine).CheckIsMember
 //@   props C03 C08
